@@ -792,6 +792,11 @@ func (r Condition) Valid() (err error) {
 
 	// verify comparison operator
 	if cop := r.Operator(); cop != nil {
+		// the built-in operator type may also be
+		// held by reference (*ComparisonOperator).
+		if ptr, ok := cop.(*ComparisonOperator); ok && ptr != nil {
+			cop = *ptr
+		}
 		if assert, ok := cop.(ComparisonOperator); ok {
 			if !(1 <= int(assert) && int(assert) <= 6) {
 				err = errorf("operator value is bogus")
